@@ -355,7 +355,8 @@ def execute(scen):
             m = fam["concerned"]
             s1 = without(before, m)
             steps.append(({"op": "unregister", "mid": m}, s1))
-            steps.append(({"op": "register", "mid": m}, s1 + [[m, None]]))
+            if m != fam.get("offender_in_pre"):  # re-registering an invalid method must fail
+                steps.append(({"op": "register", "mid": m}, s1 + [[m, None]]))
         else:
             s1 = before + [["mx", None]]
             steps.append(({"op": "register", "mid": "mx"}, s1))
